@@ -36,6 +36,7 @@ func (s *seqRun) freeCounts() [2]uint64 {
 // size and a digest of its content (files up to 1 MiB, link targets).
 func (s *seqRun) dumpTree() string {
 	var lines []string
+	s.dumpFiles = nil
 	type item struct {
 		path string
 		h    []byte
@@ -81,6 +82,7 @@ func (s *seqRun) dumpTree() string {
 			}
 			switch a.Ftype {
 			case nfstypes.NF3REG:
+				s.dumpFiles = append(s.dumpFiles, append([]byte{}, h...))
 				if a.Size <= 1<<20 {
 					var rr nfstypes.READ3res
 					if !s.guarded("dump read", func() {
